@@ -1,4 +1,5 @@
 (** Extraction roots of the SMGen gate model (driver: extract/drv_sm.ml); the reference
     semantics is included so that a private binary spmodel_SM also answers (valid ...). *)
 From SP Require SM.SMGate Extract.RootsDesign.
-Definition roots := (SM.SMGate.gate, SM.SMGate.ignored_by_gate, Extract.RootsDesign.roots).
+Definition roots := (SM.SMGate.gate, SM.SMGate.ignored_by_gate, SM.SMGate.refused_kind, SM.SMGate.user_kind,
+                     SM.SMGate.realised_kind, Extract.RootsDesign.roots).
